@@ -50,6 +50,7 @@ type worker[T any, JobType iJob[T]] struct {
 	waiters         *sync.Cond
 	tickers         []*time.Ticker
 	tickerDones     []chan struct{}
+	removers        sync.WaitGroup
 	mx              sync.RWMutex
 	// lifecycle serialises Stop and Restart (and the context listener's stop): both
 	// tear down and replace the channels, tickers, pool and context of a run
@@ -413,7 +414,11 @@ func (w *worker[T, JobType]) goRemoveIdleWorkers() {
 	w.tickerDones = append(w.tickerDones, done)
 	w.mx.Unlock()
 
+	w.removers.Add(1)
+
 	go func() {
+		defer w.removers.Done()
+
 		for {
 			select {
 			case <-done:
@@ -512,7 +517,6 @@ func (w *worker[T, JobType]) reserveSlot() bool {
 
 func (w *worker[T, JobType]) stopTickers() {
 	w.mx.Lock()
-	defer w.mx.Unlock()
 
 	for _, ticker := range w.tickers {
 		ticker.Stop()
@@ -524,6 +528,11 @@ func (w *worker[T, JobType]) stopTickers() {
 
 	w.tickers = make([]*time.Ticker, 0)
 	w.tickerDones = nil
+	w.mx.Unlock()
+
+	// A remover may be in the middle of a pass over a snapshot of the idle list:
+	// wait for it, or it goes on to retire the workers of the next run.
+	w.removers.Wait()
 }
 
 func (w *worker[T, JobType]) closeChannels() {
